@@ -873,6 +873,15 @@ def gen_zoned_ops(ctx, n):
             wrong = rng.choice([off, off, s[2], s[3], off + 1, off - 3600])
             if abs(wrong) <= OFF_MAX:
                 ops.append(J("zdt.new", x[:5], wrong, ztok(s)))
+            # local values INSIDE the gap / overlap at the transition, with the offset before and the offset after it:
+            # inside a gap neither offset is the zone's offset at (local - offset), so the constructor must refuse both
+            lo_l, hi_l = sorted((s[1] + s[2] * NPS, s[1] + s[3] * NPS))
+            if hi_l > lo_l:
+                for l in (lo_l, lo_l + 1, (lo_l + hi_l) // 2, hi_l - 1, hi_l):
+                    dl, nl = divmod(l, NPD)
+                    if c._min_days < dl < c._max_days and day_ok(o, dl):
+                        for w in (s[2], s[3]):
+                            ops.append(J("zdt.new", [o, c._min_days, c._max_days, dl, nl], w, ztok(s)))
         elif k < 0.8:
             # land around the transition, at the window ends, across local day boundaries
             r = rng.random()
